@@ -517,6 +517,31 @@ def run(world, rep, tier, only=None):
                "returns that may be 0 without `*io_ptr = undo_io_manager` and without the directory test: lines %s" % bare)
     rep.floor("C12.l undo set-up functions of the tools", n_l, 4)
 
+    # ------------------------------------------------------------------ C12.m the undo file the user named is the one that is written
+    # tune2fs -I switches the undo manager on by itself (with the default file name).  Where it does so it must not
+    # replace a name given with -z: the run would record nowhere (or elsewhere) and e2undo <file> could restore nothing.
+    tp = world.program("tune2fs")
+    tmain = tp.fn("main", "misc/tune2fs.c")
+    dflt = [n for n in tmain.events("S") if T.path(n.ev["lhs"]) == "undo_file" and T.path(n.ev.get("rhs")) is not None and
+            "default" in (T.path(n.ev.get("rhs")) or "")]
+    rep.floor("C12.m implicit undo file in tune2fs main", len(dflt), 1)
+    for i, n in enumerate(dflt):
+        ok = any(t is False and T.path(a_) == "undo_file" for t, a_ in control_lits(tmain, n))
+        rep.ob("C12.m", site(tmain, "the default undo file replaces no name given with -z#%d" % i), ok,
+               "`%s` lies on the `!undo_file` side of a test" % n.text()[:40])
+
+    # ------------------------------------------------------------------ C12.n a run that wrote nothing leaves a well-formed undo file
+    # The header's block size is filled in by undo_setup_tdb(), which runs before the first block is saved.  A run
+    # that changes nothing never gets there; undo_close() therefore runs it before it writes the header, or e2undo and
+    # the next tool of a chain reject the file ("Corrupt undo file header").
+    uc = ufile["undo_close"]
+    wi = calls_to(uc, "write_undo_indexes")
+    su = calls_to(uc, "undo_setup_tdb")
+    rep.floor("C12.n header write in undo_close", len(wi), 1)
+    for i, n in enumerate(wi):
+        rep.ob("C12.n", site(uc, "header set up before it is written at close#%d" % i), bool(su) and uc.dominated_by(n, su),
+               "undo_setup_tdb() dominates write_undo_indexes() in undo_close()")
+
     # ------------------------------------------------------------------ C12.f e2undo
     cbm = check_blocks(main)
     dev_writes = [n for n in main.call_nodes() if effects.is_write_req(main, n) and T.path(arg(n, 0)) == "channel"]
